@@ -99,13 +99,15 @@ theorem applyConv_typed {c : Conversion} {e e' : IExpr} (he : ∃ t, HasType Γ 
   · split at h
     · simp at h
     · split at h
-      · split at h <;> (simp at h; subst h)
-        · exact ⟨_, .lit _⟩
-        · exact ⟨_, .cast he⟩
-      · split at h <;> (simp at h; subst h)
-        · exact ⟨_, .lit _⟩
-        · exact ⟨_, .cast he⟩
       · simp at h; subst h; exact ⟨_, .cast he⟩
+      · split at h
+        · split at h <;> (simp at h; subst h)
+          · exact ⟨_, .lit _⟩
+          · exact ⟨_, .cast he⟩
+        · split at h <;> (simp at h; subst h)
+          · exact ⟨_, .lit _⟩
+          · exact ⟨_, .cast he⟩
+        · simp at h; subst h; exact ⟨_, .cast he⟩
 
 theorem convert_typed {e e' : IExpr} {s d t : ETy} (he : ∃ t, HasType Γ e t) (h : convert e s d = .ok (some (e', t))) :
     ∃ t, HasType Γ e' t := by
@@ -120,7 +122,8 @@ theorem convert_typed {e e' : IExpr} {s d t : ETy} (he : ∃ t, HasType Γ e t) 
       · simp at h
       · simp at h; obtain ⟨rfl, _⟩ := h; exact applyConv_typed he ha
 
-theorem castOperand_typed {e e' : IExpr} {τ inp : ETy} (he : ∃ t, HasType Γ e t) (h : castOperand e τ inp = .ok e') :
+theorem castOperand_typed {f : Err} {e e' : IExpr} {τ inp : ETy} (he : ∃ t, HasType Γ e t)
+    (h : castOperand f e τ inp = .ok e') :
     ∃ t, HasType Γ e' t := by
   unfold castOperand at h
   split at h
